@@ -91,6 +91,7 @@ def worker_init() -> None:
     # zygotes are forked now, while this worker holds no pipe to any simulated process
     _zygote("normal")
     _zygote("nocache")
+    _zygote("bare")
     import multiprocessing.util as mpu
 
     mpu.Finalize(None, worker_exit, exitpriority=10)
@@ -129,7 +130,7 @@ def _zygote(flavour: str):
         }
         if flavour == "nocache":
             env["SPSDK_CACHE_DISABLED"] = "1"
-        _W.zyg[flavour] = child.start_zygote(env)
+        _W.zyg[flavour] = child.start_zygote(env, bare=flavour == "bare")
     return _W.zyg[flavour]
 
 
@@ -275,6 +276,11 @@ class Proc:
         self.idx = idx
         self.spec = spec
         self.flavour = spec.get("flavour", "normal")
+        self.fresh = bool(spec.get("fresh_import"))
+        self.paused: set = set()
+        self.seam_seen: dict = {}
+        self.counted_yield = -1
+        self.zyg = "bare" if self.fresh else self.flavour  # which zygote forks it
         self.cid = None
         self.rfd = self.wfd = None
         self.buf = b""
@@ -422,7 +428,11 @@ class Run:
         if wl != "ALL":
             wl = self.resolve(wl)
         msg = {"op": "spawn", "id": p.cid, "spec": {"cache_root": self.cache, "workload": wl}}
-        _zy_call(p.flavour, msg, fds=(p2c_r, c2p_w))
+        if p.fresh:
+            msg["spec"]["fresh_import"] = True
+            msg["spec"]["env"] = {"SPSDK_CACHE_DISABLED": "1"} if p.flavour == "nocache" else {}
+            self.probe("process_imports_spsdk_itself")
+        _zy_call(p.zyg, msg, fds=(p2c_r, c2p_w))
         os.close(p2c_r)
         os.close(c2p_w)
         p.rfd, p.wfd = c2p_r, p2c_w
@@ -436,7 +446,7 @@ class Run:
     def reap(self, p: Proc) -> None:
         p.finished = True
         p.close()
-        _zy_call(p.flavour, {"op": "reap", "id": p.cid})
+        _zy_call(p.zyg, {"op": "reap", "id": p.cid})
 
     def advance(self, p: Proc, action: dict, holders: dict | None = None) -> None:
         """Release p with `action`; read until its next yield, completion or death."""
@@ -554,6 +564,28 @@ class Run:
                 if p.locks:
                     self.probe("stalled_while_holding_lock")
                 self.log.add("stall", pi, step, p.idx, y["y"], stall["us"])
+                step += 1
+                self.steps += 1
+                continue
+            if p.counted_yield != p.nyield:
+                p.counted_yield = p.nyield
+                p.seam_seen[y["y"]] = p.seam_seen.get(y["y"], 0) + 1
+            pause = None
+            for qi_, q in enumerate(p.spec.get("pauses") or []):
+                if qi_ in p.paused:
+                    continue
+                if ("at_yield" in q and q["at_yield"] == p.nyield - 1) or ("seam" in q and q["seam"] == y["y"] and p.seam_seen.get(y["y"], 0) - 1 == q.get("nth", 0)):
+                    pause = q
+                    p.paused.add(qi_)
+                    break
+            if pause is not None:
+                # plain scheduling: the operating system leaves the process off the processor for a while at this point
+                # (much shorter than any time-out); its peers go on. Pauses named by seam kind sit right before an
+                # action that was decided on earlier (remove, open for writing, commit): the check-then-act windows.
+                p.nyield -= 1
+                p.wake = self.now + int(pause["us"])
+                self.probe("descheduled_for_a_while")
+                self.log.add("pause", pi, step, p.idx, y["y"], pause["us"])
                 step += 1
                 self.steps += 1
                 continue
@@ -747,6 +779,9 @@ class Run:
         self.wipe_cache()
         try:
             self.reference()
+            if self.plan.get("cache_dir_absent"):
+                shutil.rmtree(self.cache, ignore_errors=True)  # a user-defined cache folder that nobody has created yet
+                self.probe("cache_folder_absent_at_start")
             for pi, ph in enumerate(self.plan["phases"]):
                 kind = ph["kind"]
                 if kind == "procs":
@@ -813,7 +848,7 @@ def execute(plan: dict) -> dict:
 
 def families(tier: str):
     if tier == "quick":
-        return [("sched", 220), ("damage", 60), ("stale", 60), ("nocache", 50), ("sweepq", 32), ("sweepd", 12), ("sweepfull", 1)]
+        return [("sched", 220), ("damage", 60), ("stale", 90), ("nocache", 50), ("sweepq", 32), ("sweepd", 12), ("sweepfull", 1)]
     return [("sched", 12000), ("damage", 3000), ("stale", 3000), ("nocache", 3000), ("sweepq", 700), ("sweepd", 900), ("full", 32), ("sweepfull", 6)]
 
 
@@ -849,9 +884,17 @@ def _procs_phase(rng: random.Random, nmax: int, crash_rate: float):
             spec["split"] = {"commit": rng.randrange(3), "num": rng.randrange(1, 8), "den": 8}
         elif r < crash_rate + 0.27:
             spec["stall"] = {"at_yield": rng.randrange(40), "us": rng.choice([11_000_000, 25_000_000])}
+        if rng.random() < 0.35:
+            spec["pauses"] = [{"at_yield": k, "us": rng.choice([60_000, 200_000, 1_000_000])} for k in sorted(rng.sample(range(40), rng.randint(1, 3)))]
+        elif rng.random() < 0.3:
+            spec["pauses"] = [{"seam": rng.choice(["remove", "open_w", "commit", "mkdir", "open_r", "unlock"]), "nth": rng.randrange(3), "us": rng.choice([60_000, 200_000])} for _ in range(rng.randint(1, 2))]
         procs.append(spec)
     style = rng.random()
-    if style < 0.3:
+    if style < 0.15:
+        # lockstep: every runnable process advances one seam in turn, so that all of them stand at the same
+        # check-then-act window together
+        sched = [k % 16 for k in range(400)]
+    elif style < 0.3:
         sched = []  # purely seeded
     elif style < 0.6:
         # bursty: run one process for a while, then switch
@@ -875,6 +918,19 @@ def _damage_phase(rng: random.Random):
 
 
 def gen_plan(family: str, i: int, rng: random.Random, tier: str) -> dict:
+    plan = _gen_plan(family, i, rng, tier)
+    if family in ("sched", "damage", "nocache", "stale") and rng.random() < 0.25:
+        # processes that start from nothing: each imports SPSDK itself, under the interposer, before its first query
+        for ph in plan["phases"]:
+            if ph["kind"] == "procs":
+                for p_ in ph["procs"]:
+                    p_["fresh_import"] = True
+        if rng.random() < 0.5:
+            plan["cache_dir_absent"] = True
+    return plan
+
+
+def _gen_plan(family: str, i: int, rng: random.Random, tier: str) -> dict:
     if family == "sched":
         profile = "tiny" if rng.random() < 0.75 else "small"
         phases = []
@@ -918,11 +974,25 @@ def gen_plan(family: str, i: int, rng: random.Random, tier: str) -> dict:
 
         warm = {"kind": "procs", "procs": [{"flavour": "normal", "workload": [["cfg", rng.randrange(6)]] + tkeys + [["cfg", rng.randrange(6)]]}], "sched": [], "sched_seed": 0}
         phases = [warm, {"kind": "stale", "target": target, "variant": rng.randrange(6)}]
-        n = rng.choice([1, 1, 2, 3])
+        n = rng.choice([1, 2, 2, 3])
         procs = [{"flavour": "normal", "workload": aimed(rng.randint(1, 3))} for _ in range(n)]
         if rng.random() < 0.3:
             procs[0]["crash"] = {"tear_commit": rng.randrange(2), "num": rng.randrange(8), "den": 8}
-        phases.append({"kind": "procs", "procs": procs, "sched": [rng.randrange(16) for _ in range(200)] if n > 1 else [], "sched_seed": rng.randrange(1 << 30)})
+        if n > 1:
+            for p_ in procs:
+                r_ = rng.random()
+                if r_ < 0.3:
+                    p_["pauses"] = [{"at_yield": k, "us": rng.choice([60_000, 200_000])} for k in sorted(rng.sample(range(4, 24), rng.randint(1, 3)))]
+                elif r_ < 0.75:
+                    p_["pauses"] = [{"seam": rng.choice(["remove", "remove", "open_w", "commit", "open_r"]), "nth": rng.randrange(2), "us": rng.choice([60_000, 200_000])} for _ in range(rng.randint(1, 2))]
+        if n > 1 and rng.random() < 0.5:
+            sched = [k % 16 for k in range(300)]  # lockstep: all processes judge the outdated cache together
+            if rng.random() < 0.7:
+                for p_ in procs[1:]:
+                    p_["workload"] = copy.deepcopy(procs[0]["workload"])  # the same program, seam for seam
+        else:
+            sched = [rng.randrange(16) for _ in range(200)] if n > 1 else []
+        phases.append({"kind": "procs", "procs": procs, "sched": sched, "sched_seed": rng.randrange(1 << 30)})
         if rng.random() < 0.4:
             phases.append({"kind": "stale", "target": rng.choice(sorted(STALE_TARGETS)), "variant": rng.randrange(6)})
             phases.append({"kind": "procs", "procs": [{"flavour": "normal", "workload": aimed(2)}], "sched": [], "sched_seed": 0})
@@ -985,6 +1055,10 @@ def gen_plan(family: str, i: int, rng: random.Random, tier: str) -> dict:
 
 
 def reductions(plan: dict):
+    if plan.get("cache_dir_absent"):
+        c = copy.deepcopy(plan)
+        c.pop("cache_dir_absent")
+        yield c
     # 1. drop whole phases (never the last one if it is the only one)
     if len(plan["phases"]) > 1:
         yield from ddmin_lists(plan, [["phases"]])
@@ -995,7 +1069,7 @@ def reductions(plan: dict):
             for qi, p in enumerate(ph["procs"]):
                 if len(p["workload"]) > 1:
                     yield from ddmin_lists(plan, [["phases", pi, "procs", qi, "workload"]])
-                for key in ("crash", "split", "stall"):
+                for key in ("crash", "split", "stall", "fresh_import", "pauses"):
                     if p.get(key):
                         c = copy.deepcopy(plan)
                         c["phases"][pi]["procs"][qi].pop(key)
